@@ -273,10 +273,10 @@ class SqliteModel(PyEval):
             ia = self.inst(a)
             shifted = ia.t + delta if op == '+' else ia.t - delta
             shifted = shifted.replace(microsecond=0)
+            if const and delta.days * 86400 + delta.seconds == 0: return ia          # no modifiers: expression unchanged
             if typ(node[1], self.params) == 'date':
                 # constant: date(x, modifiers) -> 10 characters; parameter / column: datetime(julianday(x) +- ?) -> 19
                 return Inst(datetime.combine(shifted.date(), MIDNIGHT), 10) if const else Inst(shifted, 19)
-            if const and delta.days * 86400 + delta.seconds == 0: return ia          # no modifiers: expression unchanged
             return Inst(shifted, 19)
         # differences
         b = self.val(node[2], row)
